@@ -15,7 +15,7 @@ TB = "TLC 1.8; spec/*.tla as written; harness/zeval.py (SMT-LIB semantics, self-
 ENGINES = [
     {
         "name": "E1-reference-machine",
-        "path": "spec/Evm.tla spec/EvmRun.tla spec/EvmWord.tla spec/Bytecode.tla spec/Keccak.tla harness/e1.py harness/e1corpus.py harness/hrun.py harness/zeval.py harness/progs*.py",
+        "path": "spec/Evm.tla spec/EvmRun.tla spec/EvmSmall.tla spec/MC_EvmSmall_*.cfg spec/EvmWord.tla spec/Bytecode.tla spec/Keccak.tla harness/e1.py harness/symstore.py harness/e1corpus.py harness/hrun.py harness/zeval.py harness/progs*.py",
         "serves_properties": ["C01", "C02", "C08", "C09", "C13", "C14"],
         "kind_free_text": "TLC executes the TLA+ reference EVM (256-bit words as byte limbs, all frame invariants checked in every state) on generated programs x inputs; halmos' symbolic paths are evaluated pointwise at the same inputs and every covering path's end state is compared with the TLC terminal state",
     },
@@ -45,7 +45,7 @@ ENGINES = [
     },
     {
         "name": "frontier-model",
-        "path": "spec/Frontier.tla spec/Frontier.cfg spec/Evm.tla harness/invgen.py checks/c15.py",
+        "path": "spec/Frontier.tla spec/Frontier.cfg spec/PathSlice.tla spec/MC_PathSlice_*.cfg spec/Evm.tla harness/invgen.py harness/pathslice_replay.py checks/c15.py",
         "serves_properties": ["C15"],
         "kind_free_text": "TLC explores all bounded call sequences of generated stateful targets with one reference-EVM transaction per action; halmos' invariant-test verdicts and counterexample sequences are compared / replayed",
     },
